@@ -3,6 +3,8 @@
 A case is fully described by a small JSON dict (generator parameters + seed), so `rerun` reproduces it."""
 from __future__ import annotations
 
+import itertools
+import operator
 import random
 import time
 import traceback
@@ -276,6 +278,144 @@ def run_mode_case(p):
             blocks.pop().__exit__(None, None, None)
         _ = O._symbolic_mode.set(None)
         del O.SymbolicExpression._symbolic_expression_stack_[:]
+        O.enable_caching()
+    return None
+
+
+# ---------------------------------------------------------------------------------------------------------------------
+# differential family over three integer attributes (ported from a fuzz script a seeding sub-agent wrote, which found the
+# defect fixed by db0fee5 on the unchanged tree): and_/or_ with two or three operands nested up to three levels, comparisons
+# between attributes of the same or of different variables, membership in a list attribute, 1-3 variables, random
+# declaration order, listing order, operator spelling (& | vs and_ or_), conjuncts passed one by one, domain permutation
+_FQ_OPS = {'<': operator.lt, '>': operator.gt, '<=': operator.le, '>=': operator.ge, '==': operator.eq, '!=': operator.ne}
+_FQ_MIRROR = {'<': '>', '>': '<', '<=': '>=', '>=': '<=', '==': '==', '!=': '!='}
+
+
+def _fq_atom(rng, vars_, literal_free):
+    kind = rng.random()
+    v1, v2 = rng.choice(vars_), rng.choice(vars_)
+    f1, f2 = rng.choice('abc'), rng.choice('abc')
+    op = rng.choice(list(_FQ_OPS))
+    if kind < 0.15:
+        return ('contains', v1, v2, f2)
+    if kind < 0.55 and not literal_free:
+        return ('cmpl', v1, f1, op, rng.randint(0, 3))
+    if v1 == v2 and f1 == f2:
+        f2 = 'abc'[('abc'.index(f1) + 1) % 3]
+    return ('cmp', v1, f1, op, v2, f2)
+
+
+def _fq_formula(rng, vars_, depth, literal_free):
+    if depth == 0 or rng.random() < 0.3:
+        return _fq_atom(rng, vars_, literal_free)
+    k = rng.choice(['and', 'or'])
+    return (k,) + tuple(_fq_formula(rng, vars_, depth - 1, literal_free) for _ in range(rng.choice([2, 2, 3])))
+
+
+def _fq_ev(f, env):
+    t = f[0]
+    if t == 'and':
+        return all(_fq_ev(g, env) for g in f[1:])
+    if t == 'or':
+        return any(_fq_ev(g, env) for g in f[1:])
+    if t == 'cmp':
+        return _FQ_OPS[f[3]](getattr(env[f[1]], f[2]), getattr(env[f[4]], f[5]))
+    if t in ('cmpl', 'cmplr'):
+        return _FQ_OPS[f[3]](getattr(env[f[1]], f[2]), f[4])
+    return getattr(env[f[2]], f[3]) in env[f[1]].tags
+
+
+def _fq_rewrite(rng, f):
+    t = f[0]
+    if t in ('and', 'or'):
+        subs = [_fq_rewrite(rng, g) for g in f[1:]]
+        rng.shuffle(subs)
+        if len(subs) == 3 and rng.random() < 0.6:
+            subs = [(t, subs[0], subs[1]), subs[2]] if rng.random() < 0.5 else [subs[0], (t, subs[1], subs[2])]
+        return (t,) + tuple(subs)
+    if t == 'cmp' and rng.random() < 0.5:
+        return ('cmp', f[4], f[5], _FQ_MIRROR[f[3]], f[1], f[2])
+    if t == 'cmpl' and rng.random() < 0.5:
+        return ('cmplr', f[1], f[2], f[3], f[4])
+    if t == 'contains' and rng.random() < 0.5:
+        return ('in', f[1], f[2], f[3])
+    return f
+
+
+def _fq_build(f, V, style):
+    from entity_query_language import and_, or_, contains, in_
+    t = f[0]
+    if t in ('and', 'or'):
+        subs = [_fq_build(g, V, style) for g in f[1:]]
+        if style == 'ops':
+            r = subs[0]
+            for s_ in subs[1:]:
+                r = (r & s_) if t == 'and' else (r | s_)
+            return r
+        return and_(*subs) if t == 'and' else or_(*subs)
+    if t == 'cmp':
+        return _FQ_OPS[f[3]](getattr(V[f[1]], f[2]), getattr(V[f[4]], f[5]))
+    if t == 'cmpl':
+        return _FQ_OPS[f[3]](getattr(V[f[1]], f[2]), f[4])
+    if t == 'cmplr':
+        return _FQ_OPS[_FQ_MIRROR[f[3]]](f[4], getattr(V[f[1]], f[2]))
+    if t == 'contains':
+        return contains(V[f[1]].tags, getattr(V[f[2]], f[3]))
+    return in_(getattr(V[f[2]], f[3]), V[f[1]].tags)
+
+
+def run_fuzzq_case(p):
+    """C02 / C05 / C18: see the comment above; every spelling gives the plain-Python result set (and row count when every
+    variable is selected), with the result cache on (default) or off, on the first evaluation and on re-evaluation"""
+    from entity_query_language import symbolic_mode, let, an, entity, set_of
+    O.reset_registry()
+    rng = random.Random(p['seed'])
+    nv = p.get('nvars') or rng.choice([2, 3, 3])
+    names = ['x', 'y', 'z'][:nv]
+    domains = {nm: [O.It(rng.randint(0, 3), rng.randint(0, 3), rng.randint(0, 3), [rng.randint(0, 3) for _ in range(rng.randint(0, 2))])
+                    for _ in range(rng.randint(1, p.get('n', 4)))] for nm in names}
+    lf = p.get('nolit') if p.get('nolit') is not None else (p['seed'] % 2 == 0)
+    f = _fq_formula(rng, names, rng.choice([2, 2, 3]), lf)
+    if p.get('shape') == 'and_of_ors':
+        # a conjunction of disjunctions of atoms: a true first disjunct leaves the other disjuncts' variables open, so the
+        # operators' result caches receive entries over some of their keys only, next to entries over all of them
+        f = ('and',) + tuple(('or',) + tuple(_fq_atom(rng, names, lf) for _ in range(rng.choice([2, 2, 3])))
+                             for _ in range(rng.choice([2, 2, 3])))
+    sel = names if p.get('all_selected', True) and rng.random() < 0.6 else rng.sample(names, rng.randint(1, nv))
+    key = sorted(sel)
+    expected = sorted(tuple(id(env[nm]) for nm in key) for combo in itertools.product(*[domains[nm] for nm in names])
+                      for env in [dict(zip(names, combo))] if _fq_ev(f, env))
+    count = len(sel) == nv
+    (O.enable_caching if p.get('caching', True) else O.disable_caching)()
+    try:
+        for variant in range(4):
+            g = f if variant == 0 else _fq_rewrite(rng, f)
+            doms = {k: (v if variant == 0 else rng.sample(v, len(v))) for k, v in domains.items()}
+            decl = names if variant == 0 else rng.sample(names, nv)
+            so = list(sel) if variant == 0 else rng.sample(list(sel), len(sel))
+            style = 'fn' if variant == 0 else rng.choice(['fn', 'ops'])
+            flat = False if variant == 0 else rng.random() < 0.5
+            try:
+                with symbolic_mode():
+                    V = {}
+                    for nm in decl:
+                        V[nm] = let(type_=O.It, domain=doms[nm])
+                    conds = [_fq_build(h, V, style) for h in g[1:]] if (flat and g[0] == 'and') else [_fq_build(g, V, style)]
+                    q = an(entity(V[so[0]], *conds)) if len(so) == 1 else an(set_of([V[n_] for n_ in so], *conds))
+                for n_eval in range(2):
+                    if len(so) == 1:
+                        got = sorted((id(r),) for r in q.evaluate())
+                    else:
+                        got = sorted(tuple(id(r[V[nm]]) for nm in key) for r in q.evaluate())
+                    ok = got == expected if count else sorted(set(got)) == sorted(set(expected))
+                    if not ok:
+                        return {'formula': repr(g), 'declared': decl, 'selected': so, 'style': style, 'flat': flat, 'variant': variant,
+                                'evaluation': n_eval + 1, 'domains': repr(doms), 'got_rows': len(got), 'want_rows': len(expected),
+                                'missing': len(set(expected) - set(got)), 'extra': len(set(got) - set(expected)),
+                                'signature_kind': 'variant%d' % variant}
+            except Exception as e:  # noqa
+                return {'formula': repr(g), 'exception': repr(e), 'trace': traceback.format_exc(limit=4), 'signature_kind': 'exception'}
+    finally:
         O.enable_caching()
     return None
 
@@ -749,6 +889,8 @@ def _run_case(p):
         return run_select_case(p)
     if p.get('kind') == 'flatten':
         return run_flatten_case(p)
+    if p.get('kind') == 'fuzzq':
+        return run_fuzzq_case(p)
     if p.get('kind') == 'the_nested':
         return run_the_nested_case(p)
     if p.get('kind') == 'the':
@@ -782,12 +924,22 @@ def _run_case(p):
                 r2 = random.Random(p['seed'] * 7 + 1)
                 k = r2.randrange(1, len(doms))
                 sel = sorted(r2.sample(range(len(doms)), k))
-            got, want, q = O.run_multi(doms, cond, sel)
+            # declaration order (= order of the variable ids = key order of the result caches), listing order of the
+            # selected variables and conjuncts passed one by one vary with the seed
+            r3 = random.Random(p['seed'] * 11 + 5)
+            decl = list(range(len(doms)))
+            sel_order = list(sel) if sel is not None else list(range(len(doms)))
+            flat = False
+            if p.get('vary', True):
+                r3.shuffle(decl)
+                r3.shuffle(sel_order)
+                flat = r3.random() < 0.3
+            got, want, q = O.run_multi(doms, cond, sel, decl=decl, sel_order=sel_order, flat=flat)
             ok = sorted(got) == sorted(want) if (p.get('count', True) and sel is None) else set(got) == set(want)
             if ok and p.get('reeval', True):
                 # the same query object evaluated again gives the same rows (C04 / C05 are part of every property's
                 # precondition "whatever was evaluated before")
-                xs = q._child_.selected_variables
+                xs = q._eql_verif_sel_
                 got2 = [tuple(id(r[v]) for v in xs) for r in q.evaluate()]
                 ok = sorted(got2) == sorted(want) if (p.get('count', True) and sel is None) else set(got2) == set(want)
                 if not ok:
